@@ -90,22 +90,42 @@ fn validate_name_chars() {
     kani::cover!(r.is_ok() && b[0] == b'.' && len == 1);
 }
 
-/// C15: the length rule is exact: names of 1..=255 bytes are accepted, 0 and 256..=300 rejected with the
-/// name-length error.
-#[kani::proof]
-#[kani::unwind(302)]
-fn validate_name_length() {
-    let buf = [b'a'; 300];
-    let len: usize = kani::any();
-    kani::assume(len <= 300);
-    let name = unsafe { core::str::from_utf8_unchecked(&buf[..len]) };
+fn name_length_case<const LEN: usize>(expect_ok: bool) {
+    let buf = [b'a'; LEN];
+    let name = unsafe { core::str::from_utf8_unchecked(&buf[..]) };
     match validate_long_name::<()>(name) {
-        Ok(()) => assert!(len >= 1 && len <= 255),
-        Err(Error::InvalidFileNameLength) => assert!(len == 0 || len > 255),
+        Ok(()) => assert!(expect_ok),
+        Err(Error::InvalidFileNameLength) => assert!(!expect_ok),
         Err(_) => assert!(false),
     }
-    kani::cover!(len == 255);
-    kani::cover!(len == 256);
+}
+/// C15: the length rule is exact at its boundaries: 1 and 255 bytes accepted; 0, 256 and 300 bytes rejected with
+/// the name-length error (one harness per concrete length; a symbolic length makes every one of the 300 loop
+/// iterations conditional and did not finish in 15 min).
+#[kani::proof]
+#[kani::unwind(258)]
+fn validate_name_len_0() { name_length_case::<0>(false); }
+#[kani::proof]
+#[kani::unwind(258)]
+fn validate_name_len_1() { name_length_case::<1>(true); }
+#[kani::proof]
+#[kani::unwind(258)]
+fn validate_name_len_255() { name_length_case::<255>(true); }
+#[kani::proof]
+#[kani::unwind(258)]
+fn validate_name_len_256() { name_length_case::<256>(false); }
+#[kani::proof]
+#[kani::unwind(258)]
+fn validate_name_len_300() { name_length_case::<300>(false); }
+/// C15: every length 0..=12 in one query (symbolic length).
+#[kani::proof]
+#[kani::unwind(14)]
+fn validate_name_len_small() {
+    let buf = [b'a'; 12];
+    let len: usize = kani::any();
+    kani::assume(len <= 12);
+    let name = unsafe { core::str::from_utf8_unchecked(&buf[..len]) };
+    assert!(validate_long_name::<()>(name).is_ok() == (len >= 1));
 }
 
 // ------------------------------------------------------------------------------------------- short names (C15, C16)
@@ -155,8 +175,8 @@ fn sng_new_total() {
     kani::cover!(len == 3 && b[0] == b'.' && b[1] == b'.');
 }
 
-fn any_accepted_name(b: &[u8; 8], len: usize) -> &str {
-    // names that pass validate_long_name (ASCII subset + arbitrary 2-byte UTF-8), 1..=8 bytes
+fn any_accepted_name<const N: usize>(b: &[u8; N], len: usize) -> &str {
+    // names that pass validate_long_name, 1..=N bytes of valid UTF-8
     let name = match core::str::from_utf8(&b[..len]) { Ok(s) => s, Err(_) => { kani::assume(false); "" } };
     kani::assume(validate_long_name::<()>(name).is_ok());
     name
@@ -170,22 +190,18 @@ fn any_gen_state(g: &mut ShortNameGenerator) {
 }
 
 /// C16: whatever the collision state, a generated alias is legal in every byte.
-#[kani::proof]
-#[kani::unwind(12)]
-#[kani::stub(core::slice::memchr::memchr, crate::verif_support::stubs::memchr)]
-#[kani::stub(core::slice::memchr::memrchr, crate::verif_support::stubs::memrchr)]
-fn alias_is_legal() {
-    let b: [u8; 8] = kani::any();
+fn alias_is_legal_check<const N: usize>() {
+    let b: [u8; N] = kani::any();
     let len: usize = kani::any();
-    kani::assume(len >= 1 && len <= 8);
+    kani::assume(len >= 1 && len <= N);
     let name = any_accepted_name(&b, len);
     let mut g = ShortNameGenerator::new(name);
     any_gen_state(&mut g);
     match g.generate() {
         Ok(a) => {
             assert!(alias_legal(&a));
-            kani::cover!(a[6] == b'~');
-            kani::cover!(a[1] == b'~');
+            kani::cover!(a[1] == b'~' || a[2] == b'~' || a[3] == b'~' || a[4] == b'~' || a[5] == b'~' || a[6] == b'~');
+            kani::cover!(a[5] == b'~' || a[6] == b'~' || a[7] == b'~');   // hash form "xxHHHH~n" / long prefix
             kani::cover!(!g.lossy_conv && g.name_fits && a[0] == b[0]);
         }
         Err(_) => {
@@ -195,17 +211,23 @@ fn alias_is_legal() {
         }
     }
 }
-
-/// C16 (uniqueness lemma): after an existing raw short name `e` has been fed to the generator, the generator never
-/// produces `e`. By induction over the directory scan the alias differs from every existing entry.
 #[kani::proof]
 #[kani::unwind(12)]
 #[kani::stub(core::slice::memchr::memchr, crate::verif_support::stubs::memchr)]
 #[kani::stub(core::slice::memchr::memrchr, crate::verif_support::stubs::memrchr)]
-fn alias_never_equals_existing() {
-    let b: [u8; 8] = kani::any();
+fn alias_is_legal() { alias_is_legal_check::<5>(); }
+#[kani::proof]
+#[kani::unwind(12)]
+#[kani::stub(core::slice::memchr::memchr, crate::verif_support::stubs::memchr)]
+#[kani::stub(core::slice::memchr::memrchr, crate::verif_support::stubs::memrchr)]
+fn alias_is_legal_8bytes() { alias_is_legal_check::<8>(); }
+
+/// C16 (uniqueness lemma): after an existing raw short name `e` has been fed to the generator, the generator never
+/// produces `e`. By induction over the directory scan the alias differs from every existing entry.
+fn alias_never_equals_existing_check<const N: usize>() {
+    let b: [u8; N] = kani::any();
     let len: usize = kani::any();
-    kani::assume(len >= 1 && len <= 8);
+    kani::assume(len >= 1 && len <= N);
     let name = any_accepted_name(&b, len);
     let mut g = ShortNameGenerator::new(name);
     any_gen_state(&mut g);
@@ -222,17 +244,23 @@ fn alias_never_equals_existing() {
         kani::cover!(a[1] == b'~' || a[2] == b'~' || a[3] == b'~' || a[4] == b'~' || a[5] == b'~' || a[6] == b'~');
     }
 }
-
-/// C16 (termination lemma): a retry changes the hash, clears both bitmaps and keeps everything else, so the next
-/// scan can only fail again if 13 more colliding entries exist for the NEW hash.
 #[kani::proof]
 #[kani::unwind(12)]
 #[kani::stub(core::slice::memchr::memchr, crate::verif_support::stubs::memchr)]
 #[kani::stub(core::slice::memchr::memrchr, crate::verif_support::stubs::memrchr)]
-fn alias_retry_progress() {
-    let b: [u8; 8] = kani::any();
+fn alias_never_equals_existing() { alias_never_equals_existing_check::<5>(); }
+#[kani::proof]
+#[kani::unwind(12)]
+#[kani::stub(core::slice::memchr::memchr, crate::verif_support::stubs::memchr)]
+#[kani::stub(core::slice::memchr::memrchr, crate::verif_support::stubs::memrchr)]
+fn alias_never_equals_existing_8bytes() { alias_never_equals_existing_check::<8>(); }
+
+/// C16 (termination lemma): a retry changes the hash, clears both bitmaps and keeps everything else, so the next
+/// scan can only fail again if 13 more colliding entries exist for the NEW hash.
+fn alias_retry_progress_check<const N: usize>() {
+    let b: [u8; N] = kani::any();
     let len: usize = kani::any();
-    kani::assume(len >= 1 && len <= 8);
+    kani::assume(len >= 1 && len <= N);
     let name = any_accepted_name(&b, len);
     let mut g = ShortNameGenerator::new(name);
     any_gen_state(&mut g);
@@ -248,6 +276,16 @@ fn alias_retry_progress() {
     let d = |v: u16| if v < 10 { b'0' + v as u8 } else { b'A' + (v as u8 - 10) };
     assert!(h == [d(x >> 12), d((x >> 8) & 15), d((x >> 4) & 15), d(x & 15)]);
 }
+#[kani::proof]
+#[kani::unwind(12)]
+#[kani::stub(core::slice::memchr::memchr, crate::verif_support::stubs::memchr)]
+#[kani::stub(core::slice::memchr::memrchr, crate::verif_support::stubs::memrchr)]
+fn alias_retry_progress() { alias_retry_progress_check::<5>(); }
+#[kani::proof]
+#[kani::unwind(12)]
+#[kani::stub(core::slice::memchr::memchr, crate::verif_support::stubs::memchr)]
+#[kani::stub(core::slice::memchr::memrchr, crate::verif_support::stubs::memrchr)]
+fn alias_retry_progress_8bytes() { alias_retry_progress_check::<8>(); }
 
 /// must-fail twin: claims the generator can never fail (it must, when all 13 tails are taken).
 #[kani::proof]
@@ -318,11 +356,13 @@ fn lfn_gen_check<const MAXU: usize>() {
 /// LongNameBuilder decodes the same slots back to the identical units. Run in both builds (alloc / fixed buffer).
 #[cfg(feature = "lfn")]
 #[kani::proof]
-#[kani::unwind(270)]
+#[cfg_attr(feature = "alloc", kani::unwind(42))]
+#[cfg_attr(not(feature = "alloc"), kani::unwind(264))]
 fn lfn_generate_and_decode_2slots() { lfn_gen_check::<26>(); }
 #[cfg(feature = "lfn")]
 #[kani::proof]
-#[kani::unwind(270)]
+#[cfg_attr(feature = "alloc", kani::unwind(42))]
+#[cfg_attr(not(feature = "alloc"), kani::unwind(264))]
 fn lfn_generate_and_decode_3slots() { lfn_gen_check::<39>(); }
 
 #[cfg(feature = "lfn")]
@@ -440,17 +480,20 @@ fn lnb_sequence_check(nslots: usize) {
 /// definition of a well-formed run: broken => empty (short-name fallback); well-formed => exactly the run's units.
 #[cfg(feature = "lfn")]
 #[kani::proof]
-#[kani::unwind(270)]
+#[cfg_attr(feature = "alloc", kani::unwind(42))]
+#[cfg_attr(not(feature = "alloc"), kani::unwind(264))]
 fn lnb_sequences_2() { lnb_sequence_check(2); }
 #[cfg(feature = "lfn")]
 #[kani::proof]
-#[kani::unwind(270)]
+#[cfg_attr(feature = "alloc", kani::unwind(42))]
+#[cfg_attr(not(feature = "alloc"), kani::unwind(264))]
 fn lnb_sequences_3() { lnb_sequence_check(3); }
 
 /// must-fail twin: claims a run is always accepted.
 #[cfg(feature = "lfn")]
 #[kani::proof]
-#[kani::unwind(270)]
+#[cfg_attr(feature = "alloc", kani::unwind(42))]
+#[cfg_attr(not(feature = "alloc"), kani::unwind(264))]
 fn twin_lnb_always_yields_name() {
     let s = any_lfn_slot();
     kani::assume(s.order() == 0x41);
